@@ -18,6 +18,7 @@ type sent struct {
 	raw    []byte
 	holder *userKey // the key holder (nil for mst)
 	indep  bool     // signed by the rig's own btcec client instead of linkchain's Sign
+	utx    *utxTruth // confidential transactions: what was addressed to whom
 	desc   string
 }
 
@@ -36,14 +37,19 @@ func learnPrefixes() {
 	samples[kTxt] = types.NewTokenTransaction(common.EmptyAddress, 0, to, big.NewInt(0), 0, nil, nil)
 	samples[kCut] = types.UpgradeContractTx(&types.ContractUpgradeMainInfo{}, nil)
 	samples[kMst] = types.NewMultiSignAccountTx(&types.MultiSignMainInfo{}, nil)
+	samples[kUtx] = &types.UTXOTransaction{Fee: new(big.Int)}
 	for k := txKind(0); k < nKinds; k++ {
 		prefixes[k] = append([]byte{}, encodeTx(samples[k])[:7]...)
 	}
+	learnUtxoPrefixes()
 }
 
 func parseWire(kind txKind, raw []byte) (*wireTx, error) {
 	if len(raw) < 8 {
 		return nil, errRLP
+	}
+	if kind == kUtx {
+		return parseUtxWire(raw)
 	}
 	body, err := rlpDecode(raw[7:])
 	if err != nil {
